@@ -152,6 +152,16 @@ def value_under(case, form, settings, covers_mode):
         restore_global(old)
 
 
+def documented_covers(case):
+    """the recorded finding F10 is the DOCUMENTED reduction rule applied to a conditional cone: the covers of the real constraint must
+    be the ones the model (which encodes that rule) computes; any other loss of covers is a different defect"""
+    from props.c06 import covers_as_documented
+    try:
+        return covers_as_documented(case['f'], case['box'], lagrangian=True)
+    except Exception:  # noqa: BLE001
+        return False
+
+
 def same(a, b, tol=1e-5):
     if math.isinf(a) or math.isinf(b):
         return a == b
@@ -216,7 +226,7 @@ def audit(ctx, rng, count, nsett):
                     tags = []
                     if s['heuristic_reduction']:
                         st2, v2 = value_under(case, form, dict(s, heuristic_reduction=False), 'auto')
-                        if st2 == 'solved' and math.isfinite(v2):
+                        if st2 == 'solved' and math.isfinite(v2) and documented_covers(case):
                             tags = ['F10-heuristic-reduction-infeasible']
                     ctx.violation('options: the heuristic options %s turn a feasible conditional certificate problem (value %.6g) infeasible'
                                   % ({k: s[k] for k in s if s[k] != sm.DEFAULTS[k]}, ref[1]),
@@ -286,7 +296,7 @@ def run(ctx):
                 tags = []
                 if e.get('tag') == 'F10-heuristic-reduction-infeasible' and e['settings']['heuristic_reduction'] and v == -math.inf:
                     st2, v2 = value_under(e['case'], e['form'], dict(e['settings'], heuristic_reduction=False), 'auto')
-                    if st2 == 'solved' and math.isfinite(v2):
+                    if st2 == 'solved' and math.isfinite(v2) and documented_covers(e['case']):
                         tags = [e['tag']]
                 ctx.violation('options (corpus %s): value %s / %r vs reference %r' % (e['note'][:40], st_, v, ref[1]),
                               {'stream': 'corpus', 'entry': e}, tags=tags)
